@@ -304,7 +304,11 @@ func pDeep(args []string) string {
 	if !setCfg(args[0]) {
 		return "skip"
 	}
-	t, err := parse(UnH(args[1]))
+	return deepCheck(UnH(args[1]))
+}
+
+func deepCheck(x []byte) string {
+	t, err := parse(x)
 	if err != nil {
 		return "skip"
 	}
@@ -328,7 +332,11 @@ func pFixed(args []string) string {
 	if !setCfg(args[0]) {
 		return "skip"
 	}
-	t, err := parse(UnH(args[1]))
+	return fixedCheck(UnH(args[1]))
+}
+
+func fixedCheck(x []byte) string {
+	t, err := parse(x)
 	if err != nil {
 		return "skip"
 	}
@@ -523,6 +531,12 @@ func pEdit(args []string) string {
 		uint64(len(inner2.Buf())) != inner2.Length {
 		return fmt.Sprintf("FAIL inner-length %x old %x bs %x count %x", inner2.Length, oldLen, bs, inner2.Blocks[0].Count)
 	}
+	if lf := os.Getenv("C06_GROWLOG"); lf != "" { // coverage statistics for the generator's author
+		if f, err := os.OpenFile(lf, os.O_APPEND|os.O_CREATE|os.O_WRONLY, 0o644); err == nil {
+			fmt.Fprintf(f, "%s old %x new %x bs %x\n", mode, oldLen, inner2.Length, bs)
+			f.Close()
+		}
+	}
 	if inner2.Length > oldLen {
 		// grown: no more than the last partial block was added beyond the data
 		used := inner2.Length - inner2.FreeSpace
@@ -577,6 +591,10 @@ func gen(r *Rng, tier string, emit Emit) {
 	haveXZ := false
 	if _, err := exec.LookPath("xz"); err == nil {
 		haveXZ = true
+	}
+	// sizes around the 16 MiB limit of the short headers (images are built inside the worker)
+	for _, c := range [][2]string{{"f", "fffffe"}, {"f", "ffffff"}, {"f", "1000000"}, {"n", "1000010"}, {"ab", "1000010"}} {
+		emit("P", "p_big", c[0], c[1])
 	}
 	for it := 0; it < n; it++ {
 		rr := r.Fork(uint64(it))
@@ -645,5 +663,6 @@ func main() {
 	Register("p_deep", pDeep)
 	Register("p_fixed", pFixed)
 	Register("p_edit", pEdit)
+	Register("p_big", pBig)
 	Main(gen)
 }
